@@ -12,7 +12,13 @@
    A `machine` gives the C++ operations a semantics (state, failure, returned value, output buffers); it is a parameter: the
    equivalence holds for every machine.  What the caller sees of a result differs per interface (C: after the wrapper of the
    forwarder -- `? 1 : 0`, the function-pointer cast, getMockValueCFromNamedValue, regenerated as well; C++: the value itself):
-   observe_c / observe_x bring both to one canonical form.  No proofs in this file. *)
+   observe_c / observe_x bring both to one canonical form.
+   Custom types: installComparator / installCopier take their functions from a small pool (by index; the harness has 2 equality
+   functions, 3 to-string functions, 2 copiers), so that several types can share some functions and differ in others.  The C layer
+   keeps two more statics, the lists of adaptor nodes (comparatorList_, copierList_): `c_installer` is installComparator_c /
+   installCopier_c (a fresh node per call, the new head is what the C++ repository receives), `x_installer` the C++ user who hands
+   over an object with the given functions; XInstallCmp / XInstallCopy record the functions of the object that was installed.
+   No proofs in this file. *)
 From Coq Require Import ZArith NArith Bool List.
 From CppUVerif Require Import lib.CInt lib.Str C09_Model C19_Table gen.Gen_C19.
 Import ListNotations.
@@ -161,18 +167,20 @@ Inductive op := OSelect (scope : option (list N)) | OCall (t : tbl) (field : nam
 
 (* C values bound to the parameters of a signature; generic arguments are consumed left to right: byte strings by pointers to
    characters / buffers / objects, numbers by integers, doubles (bit pattern) and the remaining pointers; a size_t is the length
-   of the preceding buffer; output buffers and the comparator/copier functions are supplied by the harness *)
-Inductive cval := CNum (c : cty) (z : Z) | CBytes (c : cty) (b : option (list N)) | CSize (n : N) | COut | CFixed.
+   of the preceding buffer; output buffers are supplied by the harness; a comparator/copier function is a number: its index in
+   the harness's pool of functions of that type *)
+Inductive cval := CNum (c : cty) (z : Z) | CBytes (c : cty) (b : option (list N)) | CSize (n : N) | COut | CFn (c : cty) (i : Z).
+Definition fn_pool (c : cty) : Z := match c with TEqFn => 2 | TStrFn => 3 | TCopyFn => 2 | _ => 0 end.
 Definition obj_methods := ["withParameterOfType"; "withOutputParameterOfTypeReturning"; "withOutputParameterReturning"].
 Definition out_methods := ["withOutputParameter"; "withOutputParameterOfType"].
-Inductive bkind := KBytes | KNum | KSize | KOut | KFixed.
+Inductive bkind := KBytes | KNum | KSize | KOut | KFn.
 Definition bkind_of (field : name) (c : cty) : bkind :=
   match c with
   | TCharP | TUCharP => KBytes
   | TCVoidP => if existsb (name_eqb field) obj_methods then KBytes else KNum
   | TVoidP => if existsb (name_eqb field) out_methods then KOut else KNum
   | TSize => KSize
-  | TEqFn | TStrFn | TCopyFn => KFixed
+  | TEqFn | TStrFn | TCopyFn => KFn
   | _ => KNum
   end.
 Definition num_ok (c : cty) (z : Z) : bool :=
@@ -190,7 +198,9 @@ Fixpoint bind (field : name) (ps : list cty) (args : list arg) (last : N) : opti
                 | _ => None end
       | KSize => option_map (cons (CSize last)) (bind field pr args last)
       | KOut => option_map (cons COut) (bind field pr args last)
-      | KFixed => option_map (cons CFixed) (bind field pr args last)
+      | KFn => match args with
+               | AZ z :: ar => if (0 <=? z)%Z && (z <? fn_pool c)%Z then option_map (cons (CFn c z)) (bind field pr ar last) else None
+               | _ => None end
       end
   end.
 
@@ -213,7 +223,9 @@ Inductive xop :=
 | XVoid (h : handle) (method : name) (args : list xarg)
 | XRet (w : rwrap) (h : handle) (method : name) (args : list xarg)
 | XOrDefault (hh hg : handle) (getter : name) (w : rwrap) (dflt : xarg)
-| XInstallCmp (h : handle) (tyname : xarg) | XInstallCopy (h : handle) (tyname : xarg) | XRemoveAll (h : handle)
+| XInstallCmp (h : handle) (tyname : xarg) (equal to_string : xarg)    (* h->installComparator(tyname, <object whose isEqual is `equal` and whose valueToString is `to_string`>) *)
+| XInstallCopy (h : handle) (tyname : xarg) (copier : xarg)            (* h->installCopier(tyname, <object whose copy is `copier`>) *)
+| XRemoveAll (h : handle)
 | XStuck.
 
 (* the three pointers: statics of MockSupport_c.cpp for the C interface, locals of the test for the C++ interface *)
@@ -228,21 +240,48 @@ Definition set_ptr (p : ptrs) (r : recv) (h : handle) : ptrs :=
   end.
 Definition new_handle (r : recv) (k : nat) : handle := match r with RExp => HExp k | RAct => HAct k | RSup => HNone end.
 
+(* the comparator / copier objects handed to the C++ repository.  An object is described by the functions it runs: the adaptors
+   (adaptor_bodies, regenerated and compared verbatim in C19_Proofs.adaptors_ok) are isEqual = equal_(a, b) != 0,
+   valueToString = SimpleString(toString_(a)), copy = copier_(dst, src).
+   C interface: two more statics, the lists of adaptor nodes owned by the C layer; C++ interface: the user's own objects. *)
+Record cmp_node := { n_equal : xarg; n_to_string : xarg }.       (* MockCFunctionComparatorNode: equal_, toString_ (next_ = the list) *)
+Record adaptors := { a_cmps : list cmp_node; a_cps : list xarg }. (* comparatorList_, copierList_ (MockCFunctionCopierNode: copier_) *)
+Definition adaptors0 : adaptors := {| a_cmps := []; a_cps := [] |}.
+Record installer := {
+  i_cmp : list cmp_node -> xarg -> xarg -> list cmp_node * cmp_node;    (* list, isEqual, valueToString -> new list, the object installed *)
+  i_copy : list xarg -> xarg -> list xarg * xarg }.
+(* installComparator_c: comparatorList_ = new MockCFunctionComparatorNode(comparatorList_, isEqual, valueToString);
+                        currentMockSupport->installComparator(typeName, *comparatorList_);                 (BInstallCmp, verbatim)
+   installCopier_c:     copierList_ = new MockCFunctionCopierNode(copierList_, copier);
+                        currentMockSupport->installCopier(typeName, *copierList_);                          (BInstallCopy, verbatim) *)
+Definition head_or {A} (l : list A) (d : A) : A := match l with x :: _ => x | [] => d end.
+Definition c_installer : installer :=
+  {| i_cmp := fun l e s => let l' := {| n_equal := e; n_to_string := s |} :: l in (l', head_or l' {| n_equal := XMissing; n_to_string := XMissing |});
+     i_copy := fun l c => let l' := c :: l in (l', head_or l' XMissing) |}.
+(* C++: mock().installComparator(typeName, object) with the user's object for exactly these functions; no list *)
+Definition x_installer : installer :=
+  {| i_cmp := fun l e s => (l, {| n_equal := e; n_to_string := s |}); i_copy := fun l c => (l, c) |}.
+
 (* one call through a table whose entry has signature sg and meaning s *)
-Definition apply_sem (p : ptrs) (k : nat) (field : name) (sg : csig) (s : sem) (args : list arg) : ptrs * xop :=
+Definition apply_sem (I : installer) (p : ptrs) (ad : adaptors) (k : nat) (field : name) (sg : csig) (s : sem) (args : list arg)
+  : ptrs * adaptors * xop :=
   match bind field (snd sg) args 0%N with
-  | None => (p, XStuck)
+  | None => (p, ad, XStuck)
   | Some vs =>
       let ev := map (eval_arg vs) in
       match s with
-      | SChain r m a target => (set_ptr p target (new_handle target k), XChain (get_ptr p r) m (ev a) target)
-      | SVoid r m a => (p, XVoid (get_ptr p r) m (ev a))
-      | SRet w r m a => (p, XRet w (get_ptr p r) m (ev a))
-      | SOrDefault rh rg g w d => (p, XOrDefault (get_ptr p rh) (get_ptr p rg) g w (eval_arg vs (AParam d)))
-      | SInstallCmp => (p, XInstallCmp (p_sup p) (eval_arg vs (AParam 0)))
-      | SInstallCopy => (p, XInstallCopy (p_sup p) (eval_arg vs (AParam 0)))
-      | SRemoveAll => (p, XRemoveAll (p_sup p))
-      | SSelect _ | SBad => (p, XStuck)
+      | SChain r m a target => (set_ptr p target (new_handle target k), ad, XChain (get_ptr p r) m (ev a) target)
+      | SVoid r m a => (p, ad, XVoid (get_ptr p r) m (ev a))
+      | SRet w r m a => (p, ad, XRet w (get_ptr p r) m (ev a))
+      | SOrDefault rh rg g w d => (p, ad, XOrDefault (get_ptr p rh) (get_ptr p rg) g w (eval_arg vs (AParam d)))
+      | SInstallCmp =>
+          let (l', obj) := i_cmp I (a_cmps ad) (eval_arg vs (AParam 1)) (eval_arg vs (AParam 2)) in
+          (p, {| a_cmps := l'; a_cps := a_cps ad |}, XInstallCmp (p_sup p) (eval_arg vs (AParam 0)) (n_equal obj) (n_to_string obj))
+      | SInstallCopy =>
+          let (l', obj) := i_copy I (a_cps ad) (eval_arg vs (AParam 1)) in
+          (p, {| a_cmps := a_cmps ad; a_cps := l' |}, XInstallCopy (p_sup p) (eval_arg vs (AParam 0)) obj)
+      | SRemoveAll => (p, adaptors0, XRemoveAll (p_sup p))        (* both lists are deleted node by node, then the repository is emptied *)
+      | SSelect _ | SBad => (p, ad, XStuck)
       end
   end.
 
@@ -253,21 +292,25 @@ Definition select_ok : bool :=
   | _, _ => false
   end.
 
-Definition step (lookup : tbl -> name -> option (csig * sem)) (sel : bool) (p : ptrs) (k : nat) (o : op) : ptrs * xop :=
+Definition step (lookup : tbl -> name -> option (csig * sem)) (sel : bool) (I : installer) (p : ptrs) (ad : adaptors) (k : nat) (o : op)
+  : ptrs * adaptors * xop :=
   match o with
-  | OSelect sc => if sel then (set_ptr p RSup (HSup sc), XSelect sc) else (p, XStuck)
+  | OSelect sc => if sel then (set_ptr p RSup (HSup sc), ad, XSelect sc) else (p, ad, XStuck)
   | OCall t f args => match lookup t f with
-                      | Some (sg, s) => apply_sem p k f sg s args
-                      | None => (p, XStuck)
+                      | Some (sg, s) => apply_sem I p ad k f sg s args
+                      | None => (p, ad, XStuck)
                       end
   end.
-Fixpoint trace_from (lookup : tbl -> name -> option (csig * sem)) (sel : bool) (p : ptrs) (k : nat) (ops : list op) : list xop :=
+Fixpoint trace_from (lookup : tbl -> name -> option (csig * sem)) (sel : bool) (I : installer) (p : ptrs) (ad : adaptors) (k : nat)
+                    (ops : list op) : list xop :=
   match ops with
   | [] => []
-  | o :: r => let (p', x) := step lookup sel p k o in x :: trace_from lookup sel p' (S k) r
+  | o :: r => let '(p', ad', x) := step lookup sel I p ad k o in x :: trace_from lookup sel I p' ad' (S k) r
   end.
-Definition c_trace (ops : list op) : list xop := trace_from wired select_ok ptrs0 0 ops.     (* through the function tables *)
-Definition x_trace (ops : list op) : list xop := trace_from denote true ptrs0 0 ops.         (* the same scenario written in C++ *)
+(* through the function tables, the three static pointers and the two static adaptor lists *)
+Definition c_trace (ops : list op) : list xop := trace_from wired select_ok c_installer ptrs0 adaptors0 0 ops.
+(* the same scenario written in C++ *)
+Definition x_trace (ops : list op) : list xop := trace_from denote true x_installer ptrs0 adaptors0 0 ops.
 
 (* valid scenarios: every op names an entry of the header and its arguments fit the C signature *)
 Definition op_valid (o : op) : bool :=
